@@ -78,6 +78,7 @@ Record opts := mkOpts {
 (* per data disk, what the scan will count (scan.c counters) *)
 Record diskscan := mkDS {
   ds_equal : N; ds_move : N; ds_restore : N; ds_remove : N; ds_change : N;
+  ds_equal_links : N;           (* how many of ds_equal are symbolic links / hardlinks (scan_link counts an unchanged link as equal) *)
   ds_insert : N; ds_copy : N;   (* new files; new or rewritten files recognised as copies of a file of some disk: NOT inputs of the rule *)
   ds_zero : bool      (* a recorded file of non-zero size is found, under the same name, as a regular file of size 0 *)
 }.
@@ -124,6 +125,7 @@ Record pre := mkPre {
   p_parity_open : list bool;     (* per level: parity_open succeeds (scrub; check and excluded levels of fix go on without) *)
   p_parity_blocks : list N;      (* per level: parity_valid_size() / block size (parity.c, after fix 03a455c): the parity really
                                     present in the files -- see `valid_size` below; absent file = 0 *)
+  p_parity_absent : list bool;   (* per level: a file of the level does not exist: parity_create (O_CREAT) makes it, empty *)
   p_parity_resize : list bool;   (* per level: size on disk <> blockmax * block size: parity_chsize changes the file *)
   p_parity_modified : list bool; (* per level: parity_chsize reports is_modified (resulting size <> size recorded in the
                                     content file; a 'P' record -- single-file parity -- records no size: always modified) *)
@@ -181,6 +183,11 @@ Definition is0 (n : N) : bool := N.eqb n 0.
 Definition empty_trigger_disk (d : diskscan) : bool :=
   is0 (ds_equal d) && is0 (ds_move d) && is0 (ds_restore d) && negb (is0 (ds_remove d) && is0 (ds_change d)).
 Definition empty_trigger (p : pre) : bool := existsb empty_trigger_disk (p_disks p).
+(* the rule as the property words it ("all FILES previously known on a data disk are missing or rewritten"): unchanged links are
+   no evidence that the files are there *)
+Definition empty_trigger_files_disk (d : diskscan) : bool :=
+  is0 (ds_equal d - ds_equal_links d) && is0 (ds_move d) && is0 (ds_restore d) && negb (is0 (ds_remove d) && is0 (ds_change d)).
+Definition empty_trigger_files (p : pre) : bool := existsb empty_trigger_files_disk (p_disks p).
 Definition zero_trigger (p : pre) : bool := existsb ds_zero (p_disks p).
 
 Fixpoint minl (l : list N) : N :=
@@ -230,15 +237,19 @@ Definition resize_effects (flags : list bool) (lv : list nat) (excl : nat -> boo
 
 (* ---------------------------------------------------------------------------------------------------- sync *)
 
+(* parity_create of every level a command may write: a missing parity file appears (empty).  Recorded as RszParity. *)
+Definition create_effects (p : pre) (excl : nat -> bool) : list effect := resize_effects (p_parity_absent p) (levels p) excl.
+
 Definition sync_body (o : opts) (p : pre) : list effect * exitclass :=
   if zero_trigger p && negb (o_force_zero o) then ([], ExRefused)                     (* scan.c:1011 *)
   else if empty_trigger p && negb (o_force_empty o) then ([], ExRefused)             (* scan.c:1834 *)
   else if N.ltb (p_blockmax p) (o_blockstart o) then ([], ExRefused)               (* sync.c:1457 *)
   else if negb (forallb (fun l => nth_bool (p_parity_access p) l false) (levels p)) then ([], ExRefused)  (* 1474 *)
-  else if negb (o_force_realloc o || o_force_full o) && short_parity p then ([], ExRefused)              (* 1497 *)
-  else if o_prehash o && p_prehash_fail p then ([], ExErrors)                         (* skip_sync *)
+  (* sync.c:1469-1494 has created the missing parity files by now: the size test comes AFTER parity_create *)
+  else if negb (o_force_realloc o || o_force_full o) && short_parity p then (create_effects p (fun _ => false), ExRefused)  (* 1497 *)
+  else if o_prehash o && p_prehash_fail p then (create_effects p (fun _ => false), ExErrors)             (* skip_sync *)
   else
-    let rsz := resize_effects (p_parity_resize p) (levels p) (fun _ => false) in
+    let rsz := create_effects p (fun _ => false) ++ resize_effects (p_parity_resize p) (levels p) (fun _ => false) in
     let nw1 := p_read_need_write p || p_scan_need_write p
                || existsb (fun l => nth_bool (p_parity_modified p) l false) (levels p) in                 (* sync.c:1551 *)
     let w1 := if negb (o_skip_content_write o) && nw1 then all_content p else [] in
@@ -342,7 +353,7 @@ Definition check_body (fixing : bool) (o : opts) (p : pre) : list effect * list 
   else if negb (forallb (fun l => par_excluded o l || nth_bool (p_parity_access p) l false) (levels p))
        then ([], [], ExRefused)                                                       (* check.c:2020-2026 *)
   else
-    let rsz := resize_effects (p_fix_resize p) (levels p) (par_excluded o) in
+    let rsz := create_effects p (par_excluded o) ++ resize_effects (p_fix_resize p) (levels p) (par_excluded o) in
     (* check.c:2058: nothing at all is examined when the selected range is empty *)
     let active := N.ltb (o_blockstart o) (p_blockmax p) in
     let it := if active then items_effects (o_error o) (p_fix_items p) else ([], []) in
